@@ -12,20 +12,20 @@ CLAIMED = {
     "C04": dict(level="model_checking", ref="3/C04", text="unwinding assertions derived from the documented complexity are checked on every path: while-iterations per compute_domains call, propagators popped per pass, solve_one calls per optimisation, iterations per whole run; the variable heuristics are shown never to answer 'none' while a decision variable is free (symbolic cost tables with ties); a path exhausting a budget is replayed on the real build under a watchdog", note="bounded sizes as C01/C05; termination beyond the bounds is not claimed; known finding: gcc with a zero upper capacity"),
     "C05": dict(level="model_checking", ref="3/C05", text="every feasible path of one real compute_domains_* call on a symbolic box (unbounded integer bounds, symbolic parameters, concrete small arity) is explored; on each path z3 decides that no supported tuple is lost, the result is a non-empty sub-box, and inconsistency is only reported without support", note="arity <= 3-4 and the parameter shapes listed in the evidence; values within +-2^30; stand-in numpy validated per path against the real build; Numba assumed faithful"),
     "C06": dict(level="model_checking", ref="3/C06", text="same exploration as C05; z3 decides on every path that a ground box is rejected iff it violates the documented relation and that a box collapsed to a point satisfies it", note="as C05; no_sub_cycle/scc asked on permutations only; known finding: gcc with a zero upper capacity"),
-    "C07": dict(level="model_checking", ref="3/C07", text="same exploration; on every path answering ENTAILMENT z3 decides that every tuple of the returned box satisfies the relation; the disable/re-enable history is covered by the choice-point step of C09 (flag rows copied on push, restored on backtrack) and the pass-level frame check of C08", note="as C05"),
-    "C08": dict(level="model_checking", ref="3/C08", text="four layers on real code: trigger-sufficiency lemma per narrow-mask propagator (two-box query, unbounded values), monotonicity lemma per exact propagator, one iteration of the real propagation loop from an arbitrary state satisfying the queue invariant (cut harness), and a probe after every consistency pass of the whole runs (domains shrink, enabled propagators stable at exit, lower levels untouched)", note="<= 3 propagators / <= 4 domains; 'largest fixpoint whatever the order' is obtained with the cited chaotic-iteration theorem (not mechanised); known findings: affine_eq is not idempotent and not re-queued on its own changes; no_sub_cycle prunes on bounds it does not watch"),
+    "C07": dict(level="model_checking", ref="3/C07", text="same exploration; on every path answering ENTAILMENT z3 decides that every tuple of the returned box satisfies the relation; engine level: in whole runs (enumeration and optimisation with its restarts) z3 decides at every entry of a consistency algorithm that each constraint disabled at the current level is entailed by the current box; the disable/re-enable history is covered by the choice-point step of C09 (flag rows copied on push, restored on backtrack) and the pass-level frame check of C08", note="as C05"),
+    "C08": dict(level="model_checking", ref="3/C08", text="four layers on real code: trigger-sufficiency lemma per narrow-mask propagator (run for every constraint; the mask is read from the real get_triggers_* and the lemma is trivial when every bound is watched) (two-box query, unbounded values), monotonicity lemma per exact propagator, one iteration of the real propagation loop from an arbitrary state satisfying the queue invariant (cut harness), and a probe after every consistency pass of the whole runs (domains shrink, enabled propagators stable at exit, lower levels untouched)", note="<= 3 propagators / <= 4 domains; 'largest fixpoint whatever the order' is obtained with the cited chaotic-iteration theorem (not mechanised); known findings: affine_eq is not idempotent and not re-queued on its own changes; no_sub_cycle prunes on bounds it does not watch"),
     "C09": dict(level="model_checking", ref="3/C09", text="one real branching step of each value heuristic from an arbitrary stack state (every cell an unconstrained symbol), then the real backtrack() down to the start level; z3 decides partition, frame, announced and recorded events, restoration and re-queueing", note="stack height 5-6, start level 0-3, 2 domains, 2 propagators; domain [a,b] unbounded; min_cost with a symbolic cost table (ties)"),
     "C10": dict(level="model_checking", ref="3/C10", text="from one symbolic search state the real shaving algorithm and the real bound consistency algorithm are run on identical copies: stack height, frame, containment, no solution lost, failure only without solution; shave_bound alone with the propagation pass replaced by its contract; whole runs with shaving compared with the semantic set", note="states: root and after one branch; micro-models as C01; shaving is experimental in the repository"),
     "C11": dict(level="model_checking", ref="3/C11", text="the real MultiprocessingSolver.solve/minimize/maximize/get_statistics run against a symbolic scheduler: every interleaving of the workers' streams (lengths, objective values and statistics symbolic) is a path; z3 decides multiset union, optimality, completion and the aggregation of the final statistics", note="<= 2 workers x 2 solutions (quick), 3 x 2 (thorough); Queue assumed FIFO per producer; the OS is not in the claim; sequential equivalence by composition with C12 and C02"),
     "C12": dict(level="model_checking", ref="3/C12", text="the real Problem.split on six variable/shared-domain layouts with [a,b] unbounded and k symbolic: original unchanged, sub-problems differ only in that shared domain, parts consecutive, disjoint, non-empty, union [a,b]", note="k <= 8 (12); <= 3 variables; 'union of the solution sets' by composition with C02"),
-    "C13": dict(level="model_checking", ref="3/C13", text="Problem.init flattening lemma under every posting order (slices, offsets, parameters, union of trigger masks, second init identical), translation lemma p(B+c) = p(B)+c with c symbolic and unbounded, twin micro-models (shared domain vs linked variables, constraint posted twice, added dummy / always-true constraint, permuted constraints and variables) each decided equal to the common semantic set", note="micro-models only; 'shipped examples at sizes far beyond brute force' is outside the claim"),
+    "C13": dict(level="model_checking", ref="3/C13", text="Problem.init flattening lemma under every posting order (slices, offsets, parameters, union of trigger masks, second init identical), the model-building API (add_variable / add_variables write down the model they are given: index, offset, domain per variable, number of shared domains, returned index, no orphan shared domain), translation lemma p(B+c) = p(B)+c with c symbolic and unbounded, twin micro-models (shared domain vs linked variables, constraint posted twice, added dummy / always-true constraint, permuted constraints and variables) each decided equal to the common semantic set", note="micro-models only; 'shipped examples at sizes far beyond brute force' is outside the claim"),
     "C14": dict(level="model_checking", ref="3/C14", text="same exploration as C05; z3 decides that each output bound is attained by a supported tuple (finite expansion over a window of D+1 consecutive values whose position is symbolic), that no supported tuple is lost, that a second call changes nothing, and that affine_eq equals the one-round interval reference", note="hull queries hold for boxes inside a window [L, L+D], L symbolic, D=1..3 (quick) / ..4 (thorough); known finding: gcc with a zero upper capacity"),
-    "C15": dict(level="other", ref="3/C15", text="interpreted semantics only: no result term mentions a cell of an np.empty array; filtering results are equal for every permutation argsort may return on ties; a solver created after a history (other solvers abandoned/exhausted, an optimisation, registrations, split, second init) yields the same solution sequence and statistics as a fresh one (z3 equality of the terms)", note="JIT-vs-interpreted equivalence is NOT solver-decided here (no tool executes Numba's LLVM IR symbolically); both-mode replays of every path witness are supporting evidence only; histories of length <= 2"),
+    "C15": dict(level="other", ref="3/C15", text="interpreted semantics only: no result term mentions a cell of an np.empty array and no path condition does (control flow decided by uninitialised memory; replayed with np.empty returning 0x00 / 0xff bytes); filtering results are equal for every permutation argsort may return on ties; a solver created after a history (other solvers abandoned/exhausted, an optimisation, registrations, split, second init) yields the same solution sequence and statistics as a fresh one (z3 equality of the terms)", note="JIT-vs-interpreted equivalence is NOT solver-decided here (no tool executes Numba's LLVM IR symbolically); both-mode replays of every path witness are supporting evidence only; histories of length <= 2"),
     "C16": dict(level="model_checking", ref="3/C16", text="every subscript executed on every explored path of the propagator, heuristic and whole-run harnesses is an obligation discharged by z3 (symbolic index) or at once (concrete index)", note="n, m within the catalogues; contracts on successor values, gcc values and cost tables assumed"),
     "C17": dict(level="model_checking", ref="3/C17", text="ghost counters maintained by interposed wrappers (propagator executions and outcomes, domain changes, choices, resumed choice points, passes, depth) are compared with the reported statistics at the end of enumeration, partial enumeration and optimisation on every path; the conservation laws are asserted for exhaustive BC runs; sums over workers in C11", note="micro-models as C01; with shaving only the propagator and pass counters are compared"),
     "C18": dict(level="fault_enumeration", ref="3/C18", text="the real reducer against the symbolic scheduler with a death point per worker (any message index, incl. before the first message and just before the marker) and spurious time-outs: no combination reaches the blocking state; confirmed with real killed processes in the replay", note="<= 2 workers (quick) / 3 (thorough); a dead worker puts nothing more, what it put is delivered"),
     "C19": dict(level="model_checking", ref="3/C19", text="one search step of the real solve_one from an arbitrary stack level (symbolic) for heights up to 256, the shaving step, the constructor with heights around 256, and end-to-end chains of free variables with symbolic widths: every path raises from the source or discharges all index/dtype obligations and enumerates the exact product", note="8/16-bit limits on the NUMBER of variables/propagators/parameters (Problem.init) are outside: len() cannot be symbolic"),
-    "C20": dict(level="other", ref="3/C20", text="model-level: the real constructors of the 16 shipped models are executed, the constraint network is extracted and z3 decides network => definition, definition => network, symmetry breaking sound and satisfiability/optimum preserving, counts and optima equal to the literature values; the real compiled solver is then run on every instance under three configurations", note="instance sizes listed in the evidence; the search itself is covered by C01/C02 on micro-models"),
+    "C20": dict(level="other", ref="3/C20", text="model-level: the real constructors of the 16 shipped models are executed, (knapsack also on symbolic volumes/capacity; the Golomb custom pruning step symbolically from every state of the search invariant, advisory) the constraint network is extracted and z3 decides network => definition, definition => network, symmetry breaking sound and satisfiability/optimum preserving, counts and optima equal to the literature values; the real compiled solver is then run on every instance under three configurations", note="instance sizes listed in the evidence; the search itself is covered by C01/C02 on micro-models"),
 }
 
 NOT_YET = {}
